@@ -288,7 +288,23 @@ pub fn gen_op(
                 let lo = a.saturating_sub(rng.gen_range(0..3)).max(1);
                 let hi = (*b + rng.gen_range(0..3)).min(len);
                 cands.push((lo, hi - lo + 1));
-                cands.push((lo, hi - lo + 1));
+                // ... reaching up to the stored range above it / down to the one below it, so that the
+                // batch is admissible and the island lies strictly inside it
+                let up = stored.iter().map(|r| r.0).filter(|x| *x > *b).min();
+                let dn = stored.iter().map(|r| r.1).filter(|x| *x < *a).max();
+                if let Some(up) = up {
+                    let lo2 = a.saturating_sub(rng.gen_range(1..3)).max(dn.map(|d| d + 1).unwrap_or(1));
+                    if up - 1 >= lo2 && up - lo2 <= 14 {
+                        cands.push((lo2, up - lo2));
+                        cands.push((lo2, up - lo2));
+                    }
+                }
+                if let Some(dn) = dn {
+                    let hi2 = (*b + rng.gen_range(1..3)).min(up.map(|u| u - 1).unwrap_or(len));
+                    if hi2 > dn && hi2 - dn <= 14 {
+                        cands.push((dn + 1, hi2 - dn));
+                    }
+                }
             }
             let start = if !cands.is_empty() && rng.gen_bool(0.75) {
                 let c = *cands.choose(rng).unwrap();
@@ -359,7 +375,7 @@ pub fn gen_op(
                         unverify(&mut b[i]);
                     }
                 }
-                78..=80 => {
+                78..=86 => {
                     // headers that keep their advertised hash but do not link to one neighbour: the first
                     // header points to another parent (lower link), or the last one announces another next
                     // validator set (upper link).  Only the store's neighbour verification can notice.
@@ -381,10 +397,10 @@ pub fn gen_op(
                         }
                     }
                 }
-                81..=86 => {
+                87..=90 => {
                     b.shuffle(rng);
                 }
-                87..=96 => {
+                91..=96 => {
                     // hole inside the batch
                     // (right after the first header, in the middle, or before the last one)
                     if b.len() >= 3 {
@@ -400,7 +416,16 @@ pub fn gen_op(
             }
             Op::Insert(b)
         }
-        55..=74 => Op::Remove(near(rng)),
+        55..=74 => {
+            // mostly near a range edge; sometimes eat away the shortest stored run (its heights become a
+            // pruned island whose neighbours were never synced)
+            if !stored.is_empty() && rng.gen_bool(0.3) {
+                let r = stored.iter().min_by_key(|r| r.1 - r.0).unwrap();
+                Op::Remove(if rng.gen_bool(0.5) { r.0 } else { r.1 })
+            } else {
+                Op::Remove(near(rng))
+            }
+        }
         75..=86 => Op::Mark(near(rng)),
         _ => {
             let k = rng.gen_range(1..=3);
